@@ -263,13 +263,4 @@ def otlpOKNoPath (exp : Exp) (parse : Parse) (e : OtlpEnv) (opts : List UOpt) (c
   && c.headers == expectedHeaders exp e opts
   && c.endpoint == expectedEndpoint exp parse e opts
 
-/-- F39 (found by the end-to-end leg): otlploggrpc reads OTEL_EXPORTER_OTLP_[LOGS_]CERTIFICATE into its config but never
-hands it to the gRPC dial options, so a TLS connection is verified against the host's root CAs only. The predicate
-is over the scenario parameters: the log gRPC exporter, a certificate variable is set, and the resolved transport is
-TLS (`insecure = false`). The model does not cover the assembly of dial options / HTTP transports, so there is no
-`_witness` theorem: the deviation is an observation of the end-to-end leg (the other five exporters deliver to the
-same TLS collector under the same settings), classified by this predicate. -/
-def F39_applies (exp : Exp) (certVar : Bool) (insecure : Bool) : Bool :=
-  exp == .lg && certVar && !insecure
-
 end Otel.C20.Spec
